@@ -440,8 +440,20 @@ fn gen_ops(rng: &mut Rng, len: usize) -> Vec<Op> {
                 }
             }
             2 => ops.push(Op::ScanWalk(if rng.gen_bool(0.5) { None } else { Some(b(["k*", "*", "{t}*", "?"][rng.gen_range(0..4)])) })),
-            3 => ops.push(Op::BatchGet((0..rng.gen_range(1..5)).map(|_| b(keypool[rng.gen_range(0..keypool.len())])).collect())),
-            4 => ops.push(Op::BatchSet((0..rng.gen_range(1..5)).map(|_| (b(keypool[rng.gen_range(0..keypool.len())]), gen::pick(rng, &["v1", "10", "", "x y"]))).collect())),
+            3 => {
+                let n = if rng.gen_bool(0.2) { rng.gen_range(25..80) } else { rng.gen_range(1..5) };
+                ops.push(Op::BatchGet((0..n).map(|_| b(keypool[rng.gen_range(0..keypool.len())])).collect()))
+            }
+            4 => {
+                // mostly short batches; one in four is a deep pipeline (25-120 pairs over the 10 names, so every key is written
+                // several times in one call: the last write of a key must win on any number of shards) with distinct values
+                let n = if rng.gen_bool(0.25) { rng.gen_range(25..120) } else { rng.gen_range(1..5) };
+                ops.push(Op::BatchSet(
+                    (0..n)
+                        .map(|j| (b(keypool[rng.gen_range(0..keypool.len())]), if n > 5 { format!("w{}", j).into_bytes() } else { gen::pick(rng, &["v1", "10", "", "x y"]) }))
+                        .collect(),
+                ))
+            }
             5 if cfg!(feature = "lua") => {
                 let kind = ["eval", "load", "evalsha", "evalsha", "flush", "exists"][rng.gen_range(0..6)].to_string();
                 ops.push(Op::Script(kind, rng.gen_range(0..SCRIPTS.len()), b(keypool[rng.gen_range(0..keypool.len())]), gen::pick(rng, &["1", "x"])));
